@@ -261,6 +261,9 @@ func TestC03(t *testing.T) {
 				}
 			}
 		}
+		// 4. shared byte-level generators (exactly-when direction, depth limit)
+		e.feed(feedOpts{counts: 1, streams: true, shortlexQ: 3, shortlexT: 5, sweepQ: 150, sweepT: 12000, sweepMaxLen: 72, nestQ: 40, nestT: 800, indentQ: 10, indentT: 300, numShapes: 2, strRuns: true, tokenSweepQ: 30, templateSweep: true, amplify: true,
+			nestDepths: []int{1, 2, 3, 5, 64, 9999, 10000, 10001, 10002}, depthSitesLite: true, nextByte: true, alignment: true, boundaries: true, boundaryQ: 1}, eval)
 		// 3c. sibling ladders: one parent holding 3..6 sibling containers whose sizes are fractions
 		// of a big first sibling (sibling containers of one parent are decoded by one pooled child
 		// reader: what it keeps of the big one - a backing array, a slab, a hint - must not end up
@@ -299,8 +302,5 @@ func TestC03(t *testing.T) {
 				}
 			}
 		}
-		// 4. shared byte-level generators (exactly-when direction, depth limit)
-		e.feed(feedOpts{counts: 1, shortlexQ: 3, shortlexT: 5, sweepQ: 150, sweepT: 12000, sweepMaxLen: 72, nestQ: 40, nestT: 800, indentQ: 10, indentT: 300, numShapes: 2, strRuns: true, tokenSweepQ: 30, templateSweep: true, amplify: true,
-			nestDepths: []int{1, 2, 3, 5, 64, 9999, 10000, 10001, 10002}, depthSitesLite: true, nextByte: true, alignment: true, boundaries: true, boundaryQ: 1}, eval)
 	})
 }
